@@ -28,6 +28,11 @@ PATCHES = {
     "var-to-func": "@@\nvar v identifier\nvar x expression\n@@\n-var v = wrap(x)\n+func v() int { return wrap(x) }\n",
     "method-to-func": "@@\n@@\n-func (r R) target() error {\n+func target() error {\n   ...\n }\n",
     "field": "@@\n@@\n type T struct {\n   ...\n-  Old int\n+  New int\n   ...\n }\n",
+    # a token that was not there before (result parentheses, an ellipsis, a declaration group's parentheses) next to elided runs
+    "sig-results": "@@\nvar f identifier\n@@\n-func f() error {\n+func f() (int, error) {\n   ...\n }\n",
+    "sig-results-params": "@@\nvar f identifier\n@@\n-func f(...) error {\n+func f(...) (res int, err error) {\n   ...\n }\n",
+    "call-ellipsis": "@@\nvar x expression\n@@\n-foo(x)\n+foo(x...)\n",
+    "var-group": "@@\nvar v identifier\nvar x expression\n@@\n-var v = wrap(x)\n+var (\n+  v = wrap(x)\n+)\n",
     "two-changes": "@@\nvar x expression\n@@\n-foo(x)\n+bar(x)\n\n@@\nvar y expression\n@@\n-bar(y)\n+baz(y, 1)\n",
     "three-changes": "@@\nvar x expression\n@@\n-keep(x)\n+kept(x)\n\n@@\n@@\n-func target() error {\n+func renamed() error {\n   ...\n }\n\n@@\nvar y expression\n@@\n-foo(y)\n+bar(y)\n",
 }
